@@ -617,6 +617,14 @@ pub fn check_request(ctx: &mut Ctx, rng: &mut Rng, corpus: &Corpus, nodes: &[Nod
                     normalise_ties(nodes, &mut crs2);
                     let mine = cr_counts_lean(nodes, &crs2, &ranks);
                     ctx.report.count("model:merged-compared");
+                    // a single top-level composite: the model with per-segment eviction gives the same page
+                    if nodes.len() == 1 && matches!(nodes[0].agg, Agg::Composite { .. }) && !mparts.is_empty() {
+                        let mt = ctx.model.ask(&format!("C14 mergedtrim {} {}", nodes_to_lean(nodes, true, &ranks), parts_to_lean(&corpus.docs, &mparts, &ranks)));
+                        ctx.report.count("model:composite-eviction-compared");
+                        if mt != m {
+                            ctx.report.violation("model", "C14:lean-composite-eviction-visible", format!("with eviction {} vs without {}", &mt[..mt.len().min(300)], &m[..m.len().min(300)]), case_json(&c, parts, "final"));
+                        }
+                    }
                     if m != mine && srs == srs_pv && !corpus.docs.is_empty() {
                         ctx.report.violation("model", "C14:lean-merge-model-differs-from-real", format!("lean {} vs real {}", &m[..m.len().min(300)], &mine[..mine.len().min(300)]), case_json(&c, parts, "final"));
                     }
